@@ -24,6 +24,7 @@ func init() {
 		},
 		Stages: []Stage{
 			{Name: "registrar", Pkg: "./pkg/regserver/regprocessor", Run: "^TestVerifC12$", Drivers: []string{"regproc"}, Exports: []string{"lib"}, TimeoutQ: 10 * time.Minute, TimeoutT: 40 * time.Minute},
+			{Name: "concurrent", Pkg: "./pkg/regserver/regprocessor", Run: "^TestVerifC12Concurrent$", Drivers: []string{"regproc"}, Exports: []string{"lib"}, TimeoutQ: 10 * time.Minute, TimeoutT: 40 * time.Minute},
 			{Name: "api", Pkg: "./pkg/regserver/apiregserver", Run: "^TestVerifC12API$", Drivers: []string{"apireg"}, Exports: []string{"regproc"}, TimeoutQ: 10 * time.Minute, TimeoutT: 40 * time.Minute},
 			{Name: "dns", Pkg: "./pkg/regserver/dnsregserver", Run: "^TestVerifC12DNS$", Drivers: []string{"dnsreg"}, Exports: []string{"regproc"}, TimeoutQ: 10 * time.Minute, TimeoutT: 40 * time.Minute},
 		},
